@@ -879,6 +879,17 @@ enum Policy {
     Enumerated,
 }
 
+/// further peers of A besides B (index 2, 3, ..), scripted: they only announce header hashes
+#[derive(Clone, Copy, Debug, PartialEq)]
+enum Extra {
+    /// has a fetch url, announces B's chain, its fetches are served like B's
+    SecondServer,
+    /// has a fetch url, announces 10 unknown blocks above B's tip before anybody else and never answers a fetch
+    Hoarder,
+    /// has no fetch url, announces B's chain
+    NoUrl,
+}
+
 #[derive(Clone)]
 struct Scenario {
     label: String,
@@ -905,6 +916,7 @@ struct Scenario {
     b_growth: usize,
     /// wallet versions (A, B) announced in the handshake
     versions: Option<((u8, u8, u16), (u8, u8, u16))>,
+    extra_peers: Vec<Extra>,
 }
 
 impl Scenario {
@@ -916,11 +928,12 @@ impl Scenario {
         }
     }
     fn sequential(&self) -> bool {
-        self.batch == 1 && self.verifiers == 1
+        // (a second serving peer means two fetches in flight)
+        self.batch == 1 && self.verifiers == 1 && !self.extra_peers.contains(&Extra::SecondServer)
     }
     fn json(&self) -> String {
         format!(
-            "{{\"part\":2,\"scenario\":\"{}\",\"genesis_period\":{},\"initial_loading_completed\":{},\"a_len\":{},\"b_len\":{},\"common_prefix\":{},\"batch\":{},\"verification_threads\":{},\"a_serves_blocks\":{},\"fetch_failures\":\"{:?}\",\"duplicates\":{},\"policy\":\"{:?}\",\"seed\":{},\"b_offered_blocks\":{},\"a_lite\":{},\"b_grows_by\":{},\"wallet_versions\":\"{:?}\"}}",
+            "{{\"part\":2,\"scenario\":\"{}\",\"genesis_period\":{},\"initial_loading_completed\":{},\"a_len\":{},\"b_len\":{},\"common_prefix\":{},\"batch\":{},\"verification_threads\":{},\"a_serves_blocks\":{},\"fetch_failures\":\"{:?}\",\"duplicates\":{},\"policy\":\"{:?}\",\"seed\":{},\"b_offered_blocks\":{},\"a_lite\":{},\"b_grows_by\":{},\"wallet_versions\":\"{:?}\",\"further_peers_of_a\":\"{:?}\"}}",
             self.label,
             self.gp,
             self.loading_completed,
@@ -937,7 +950,8 @@ impl Scenario {
             if self.b_history.is_empty() { self.b_chain.len() } else { self.b_history.len() },
             self.a_lite,
             self.b_growth,
-            self.versions
+            self.versions,
+            self.extra_peers
         )
     }
 }
@@ -1054,6 +1068,11 @@ struct World {
     fetch_b: Vec<PendingFetch>,
     attempts: BTreeMap<SaitoHash, u32>,
     requested_order: Vec<SaitoHash>,
+    /// announcements of A's further peers: (peer index, message), FIFO
+    net_xa: VecDeque<(u64, Vec<u8>)>,
+    /// fetches addressed to a peer that never answers
+    stuck: Vec<PendingFetch>,
+    hoarders: BTreeSet<u64>,
 }
 
 impl World {
@@ -1081,7 +1100,12 @@ impl World {
             for (hash, peer, url, id) in d.fetches[sim.fetch_seen..].iter() {
                 let n = self.attempts.entry(*hash).or_insert(0);
                 *n += 1;
-                pool.push(PendingFetch { hash: *hash, id: *id, peer: *peer, attempt: *n, duplicate: false, lite: url.contains("/lite-block/") });
+                let pf = PendingFetch { hash: *hash, id: *id, peer: *peer, attempt: *n, duplicate: false, lite: url.contains("/lite-block/") };
+                if who == 0 && self.hoarders.contains(peer) {
+                    self.stuck.push(pf);
+                } else {
+                    pool.push(pf);
+                }
                 if who == 0 {
                     out.requested.insert(*hash);
                     self.requested_order.push(*hash);
@@ -1097,6 +1121,7 @@ impl World {
 
 #[derive(Clone, Debug)]
 enum Ev {
+    ExtraToA,
     NetToA,
     NetToB,
     VerifA(usize),
@@ -1124,6 +1149,9 @@ async fn run_scenario(sc: &Scenario, forced: &[usize], budget_trace: bool) -> Ru
         fetch_b: vec![],
         attempts: BTreeMap::new(),
         requested_order: vec![],
+        net_xa: VecDeque::new(),
+        stuck: vec![],
+        hoarders: BTreeSet::new(),
     };
     let a_ok = if sc.a_lite {
         w.a.preload_ghost(&sc.a_chain).await;
@@ -1172,6 +1200,36 @@ async fn run_scenario(sc: &Scenario, forced: &[usize], budget_trace: bool) -> Ru
         .await;
     w.collect(&mut out);
 
+    let mut hoarder_first = false;
+    for (k, kind) in sc.extra_peers.iter().enumerate() {
+        let idx = 2 + k as u64;
+        {
+            let mut peers = w.a.routing.network.peer_lock.write().await;
+            let mut peer = saito_core::core::consensus::peers::peer::Peer::new(idx);
+            peer.public_key = Some(keypair(20 + k as u8).0);
+            peer.peer_status = saito_core::core::consensus::peers::peer::PeerStatus::Connected;
+            if *kind != Extra::NoUrl {
+                peer.block_fetch_url = format!("http://peer{}:12101/block/", idx);
+            }
+            peers.address_to_peers.insert(peer.public_key.unwrap(), idx);
+            peers.index_to_peers.insert(idx, peer);
+        }
+        match kind {
+            Extra::Hoarder => {
+                hoarder_first = true;
+                w.hoarders.insert(idx);
+                let top = sc.b_chain.len() as u64;
+                for j in 1..=10u64 {
+                    w.net_xa.push_front((idx, Message::BlockHeaderHash(synth_hash(900 + idx, top + j), top + j).serialize()));
+                }
+            }
+            _ => {
+                for blk in sc.b_chain.iter() {
+                    w.net_xa.push_back((idx, Message::BlockHeaderHash(blk.hash, blk.id).serialize()));
+                }
+            }
+        }
+    }
     let n_blocks = sc.a_chain.len() + sc.b_chain.len();
     let max_steps = 2_000 + 40 * n_blocks * (n_blocks + 20);
     let mut idle_ticks = 0;
@@ -1205,6 +1263,9 @@ async fn run_scenario(sc: &Scenario, forced: &[usize], budget_trace: bool) -> Ru
             e
         } else {
             let mut opts: Vec<Ev> = vec![];
+            if hoarder_first && w.net_xa.front().map(|x| w.hoarders.contains(&x.0)).unwrap_or(false) {
+                opts.push(Ev::ExtraToA);
+            }
             if !w.net_ba.is_empty() {
                 opts.push(Ev::NetToA);
             }
@@ -1221,6 +1282,14 @@ async fn run_scenario(sc: &Scenario, forced: &[usize], budget_trace: bool) -> Ru
             }
             for k in 0..w.fetch_a.len() {
                 opts.push(Ev::FetchA(k));
+            }
+            if !w.net_xa.is_empty() && !matches!(opts.first(), Some(Ev::ExtraToA)) {
+                // the further peers' announcements come once B's headers are in (FIFO policy) or any time (random)
+                if opts.iter().any(|e| matches!(e, Ev::NetToA)) {
+                    opts.push(Ev::ExtraToA);
+                } else {
+                    opts.insert(0, Ev::ExtraToA);
+                }
             }
             out.max_pending = out.max_pending.max(opts.len());
             if opts.is_empty() {
@@ -1279,6 +1348,13 @@ async fn run_scenario(sc: &Scenario, forced: &[usize], budget_trace: bool) -> Ru
             out.trace.push(format!("{:?}", ev));
         }
         let res: Result<(), String> = match ev {
+            Ev::ExtraToA => {
+                let (idx, buf) = w.net_xa.pop_front().unwrap();
+                futures_catch(AssertUnwindSafe(async {
+                    let _ = w.a.routing.process_network_event(NetworkEvent::IncomingNetworkMessage { peer_index: idx, buffer: buf }).await;
+                }))
+                .await
+            }
             Ev::NetToA => {
                 let buf = w.net_ba.pop_front().unwrap();
                 match Message::deserialize(buf.clone()) {
@@ -1666,7 +1742,8 @@ async fn judge_run(sc: &Scenario, out: &RunOut) -> Judged {
         }
         // and nothing off B's longest chain is requested (B may hold abandoned forks)
         let b_lc: BTreeSet<SaitoHash> = sc.b_chain.iter().map(|x| x.hash).collect();
-        let stale: Vec<String> = out.requested.iter().filter(|h| !b_lc.contains(*h)).map(|h| hex::encode(&h[..4])).collect();
+        let b_all: BTreeSet<SaitoHash> = sc.b_history.iter().map(|x| x.hash).collect();
+        let stale: Vec<String> = out.requested.iter().filter(|h| !b_lc.contains(*h) && b_all.contains(*h)).map(|h| hex::encode(&h[..4])).collect();
         if !stale.is_empty() && !sc.a_serves {
             raw.push((
                 Kind::NeverRequested,
@@ -1898,6 +1975,7 @@ async fn async_main(args: Args) {
                 a_lite: false,
                 b_growth: 0,
                 versions: None,
+                    extra_peers: vec![],
             }
         };
         let mut base: Vec<Scenario> = vec![];
@@ -2150,6 +2228,45 @@ async fn async_main(args: Args) {
                 }
             }
         }
+        // ---- A has further peers besides B: a second announcer that serves, one that announces
+        // unknown blocks and never answers, one without a fetch url
+        for (al, bl) in [(0usize, 6usize), (3, 14), (10, (*n).min(25))] {
+            for extras in [
+                vec![Extra::SecondServer],
+                vec![Extra::Hoarder],
+                vec![Extra::NoUrl],
+                vec![Extra::Hoarder, Extra::SecondServer],
+                vec![Extra::NoUrl, Extra::SecondServer, Extra::Hoarder],
+            ] {
+                for v in 0..3 {
+                    let mut t = mk(
+                        format!("A prefix {}, B {}, further peers {:?}", al, bl, extras),
+                        Arc::new(mainv[..al].to_vec()),
+                        Arc::new(mainv[..bl].to_vec()),
+                        al,
+                        &mut rng,
+                    );
+                    t.extra_peers = extras.clone();
+                    match v {
+                        0 => {
+                            t.batch = 1;
+                            t.verifiers = 1;
+                            t.policy = Policy::Fifo;
+                        }
+                        1 => {
+                            t.policy = Policy::Fifo;
+                            t.loading_completed = true;
+                        }
+                        _ => {
+                            t.policy = Policy::Random;
+                            t.loading_completed = true;
+                            t.batch = 3;
+                        }
+                    }
+                    scenarios.push(t);
+                }
+            }
+        }
         // full node, two phases as well
         for (al, k, bl) in [(0usize, 5usize, 12usize), (3, 10, 21), (10, 11, 25)] {
             if bl <= *n {
@@ -2206,6 +2323,7 @@ async fn async_main(args: Args) {
                     a_lite: false,
                     b_growth: 0,
                     versions: None,
+                    extra_peers: vec![],
                 };
                 let mut forced: Vec<usize> = vec![];
                 let mut runs = 0;
@@ -2364,6 +2482,8 @@ async fn async_main(args: Args) {
                 "lite node (ghost chain)"
             } else if sc.versions.is_some() {
                 if sc.version_gate_closed() { "wallet-version gate closed" } else { "wallet versions set, gate open" }
+            } else if !sc.extra_peers.is_empty() {
+                "A has further peers"
             } else if !sc.b_history.is_empty() {
                 "B reorganised before"
             } else if sc.batch >= 20 {
